@@ -121,6 +121,24 @@ pub fn gen(stream: &str, tier: &str, seed: u64, out: &mut dyn Write) -> bool {
                 let b: Vec<u8> = if k % 2 == 0 { (0..len).map(|_| r.next() as u8).collect() } else { wireish(&mut r, len) };
                 match k % 5 { 0 => cx.dld(e, &b), 1 => { let s = tb.schema_of(e); let m = small_value(&mut r, s, e, 120).0; cx.mrg(e, &m, &b) } _ => cx.dec(e, &b) }
             }
+            // every declared field (and one undeclared) as a length-delimited record whose length prefix exceeds the input by
+            // far: strings, bytes, messages, maps and PACKED runs must reject it before anything is sized from it
+            for e in &tb.entries {
+                let s = tb.schema_of(e);
+                let mut tags: Vec<u32> = s.msgs[e.idx].iter().flat_map(|d| d.tags()).collect();
+                tags.push(536870911);
+                let lens: &[u64] = if thorough { &[65, 1 << 20, 64 << 20, (1 << 31) - 1, 1 << 32, (1u64 << 63) - 8, 1 << 63, u64::MAX] } else { &[64 << 20, 1 << 63, (1u64 << 63) - 8] };
+                for (i, tag) in tags.iter().enumerate() {
+                    for (j, l) in lens.iter().enumerate() {
+                        if !thorough && (i + j) % 2 == 1 { continue; }
+                        let mut b = vec![];
+                        put_key(*tag, 2, &mut b);
+                        put_varint(*l, &mut b);
+                        b.extend_from_slice(&[0, 0, 0, 0, 0, 0, 0, 0]);
+                        cx.dec(e, &b);
+                    }
+                }
+            }
             // mutations of valid emitted encodings
             // quick: 9 types spread over the table; thorough: every type twice
             let len = tb.entries.len();
